@@ -187,7 +187,7 @@ _EXPECTED = {}
 def expected(spec, url):
     """the answer of a fresh, writeable application to `url` alone.  For the fixed datasets it is computed once per
     process (on a fresh application) and kept; the replay computes it anew."""
-    if not any(spec is s for s in (F.FIXED_SPEC, F.LAZY_SPEC, F.NEST_SPEC, F.SHARED_SPEC)):
+    if not any(spec is s for s in (F.FIXED_SPEC, F.LAZY_SPEC, F.NEST_SPEC, F.SHARED_SPEC, F.CSV_SPEC)):
         return F.call(F.make_app(spec, False)[0], url)
     key = (spec["attrs"]["title"], url)
     if key not in _EXPECTED:
@@ -282,6 +282,10 @@ def explore(ctx, tier, search=False):
     for url in F.SHARED_REQUESTS:
         traced_case(ctx, F.SHARED_SPEC, url, "shared", cases)
         traced_case(ctx, F.SHARED_SPEC, url, "shared", cases)
+    # the CSV handler (file-backed lazy sequence: the stream is re-opened per iteration, csv.reader yields lists)
+    csv_bytes = open(F.csv_path(F.CSV_SPEC), "rb").read()
+    for url in F.CSV_REQUESTS:
+        traced_case(ctx, F.CSV_SPEC, url, "csv", cases)
     n_specs = 36 if search else 12 if tier == "quick" else 120
     specs = [F.rand_spec(rng) for _ in range(n_specs)]
     for spec in specs:
@@ -341,6 +345,16 @@ def explore(ctx, tier, search=False):
     for _ in range(8 if tier == "quick" else 80):
         urls = [rng.choice(sh) for _ in range(rng.randint(2, 9))]
         history_case(ctx, F.SHARED_SPEC, urls + [urls[0]], "shared")
+    cs = list(F.CSV_REQUESTS)
+    history_case(ctx, F.CSV_SPEC, cs + cs[::-1], "csv-all-twice")
+    for url in cs:
+        history_case(ctx, F.CSV_SPEC, [url, url], "csv-twice")
+    for _ in range(6 if tier == "quick" else 60):
+        urls = [rng.choice(cs) for _ in range(rng.randint(2, 9))]
+        history_case(ctx, F.CSV_SPEC, urls + [urls[0]], "csv")
+    if open(F.csv_path(F.CSV_SPEC), "rb").read() != csv_bytes:
+        ctx.oracle_fail("the file behind the CSV handler changed while requests were served",
+                        {"oracle": "history", "spec": F.CSV_SPEC, "urls": cs, "frozen": False}, "file differs", "unchanged")
     for spec in specs:
         for _ in range(3 if tier == "quick" else 8):
             urls = [F.rand_request(rng, spec)[0] for _ in range(rng.randint(2, 12))]
